@@ -626,7 +626,7 @@ func (w *world) runOutHelper(h *helper) {
 // ---------------------------------------------------------------------------
 // Running a scenario.
 
-const callBudget = 20000 * K // fake time a lifecycle call may take (approx. 1.3 s)
+const callBudget = 160000 * K // fake time a lifecycle call may take (approx. 10.5 s): "blocks forever" is decided far above any bounded wait
 
 type callRec struct {
 	thread string
